@@ -217,3 +217,50 @@ Proof.
   destruct (Z.eqb nm n); [injection Ea as <-; reflexivity|apply IH, Ea].
 Qed.
 
+
+(* ------------------------------------------------------------------ frame: updater(names) / updatesome(names) *)
+(* whatever happens (success or an exception half way), a parameter that is not named keeps its value and its
+   accumulator keeps its pending parts and caches *)
+Lemma apply_names_frame nms : forall ps us nm,
+  ~ In nm nms ->
+  let '(ps', us', _) := apply_names RN ps us nms in lookup nm ps' = lookup nm ps /\ lookup nm us' = lookup nm us.
+Proof.
+  induction nms as [|k tl IH]; intros ps us nm Hn; cbn [apply_names]; [auto|].
+  assert (Hne : nm <> k) by (intros ->; apply Hn; left; reflexivity).
+  assert (Htl : ~ In nm tl) by (intros H; apply Hn; right; exact H).
+  destruct (lookup k us) as [a|]; [|auto]. destruct (lookup k ps) as [x|]; [|auto].
+  destruct (acc_forward RN a x) as [a' [y|e]].
+  - specialize (IH (replace k y ps) (replace k a' us) nm Htl).
+    destruct (apply_names RN (replace k y ps) (replace k a' us) tl) as [[ps' us'] e].
+    rewrite !lookup_replace_other in IH by exact Hne. exact IH.
+  - rewrite lookup_replace_other by exact Hne. auto.
+Qed.
+Lemma update_some_frame nms clear : forall ps us nm,
+  ~ In nm nms ->
+  let '(ps', us', _) := update_some RN ps us nms clear in lookup nm ps' = lookup nm ps /\ lookup nm us' = lookup nm us.
+Proof.
+  induction nms as [|k tl IH]; intros ps us nm Hn; cbn [update_some]; [auto|].
+  assert (Hne : nm <> k) by (intros ->; apply Hn; left; reflexivity).
+  assert (Htl : ~ In nm tl) by (intros H; apply Hn; right; exact H).
+  pose proof (apply_names_frame [k] ps us nm) as H1.
+  destruct (apply_names RN ps us [k]) as [[ps1 us1] [e|]].
+  - apply H1. intros [E|[]]. congruence.
+  - destruct H1 as [P1 U1]; [intros [E|[]]; congruence|].
+    set (us2 := if clear then match lookup k us1 with Some a => replace k (acc_clear RN a) us1 | None => us1 end else us1).
+    assert (U2 : lookup nm us2 = lookup nm us1).
+    { unfold us2. destruct clear; [|reflexivity]. destruct (lookup k us1); [|reflexivity].
+      apply lookup_replace_other, Hne. }
+    specialize (IH ps1 us2 nm Htl). destruct (update_some RN ps1 us2 tl clear) as [[ps' us'] e].
+    destruct IH as [P3 U3]. split; congruence.
+Qed.
+Theorem updatesome_frame (w : worldR) nms clear nm us :
+  upd RN w = Some us -> ~ In nm nms ->
+  let w' := fst (step RN w (OpUpdateSome RN nms clear)) in
+  lookup nm (params RN w') = lookup nm (params RN w) /\
+  exists us', upd RN w' = Some us' /\ lookup nm us' = lookup nm us.
+Proof.
+  intros Eu Hn. cbn [step]. rewrite Eu.
+  pose proof (update_some_frame nms clear (params RN w) us nm Hn) as H.
+  destruct (update_some RN (params RN w) us nms clear) as [[ps' us'] [e|]]; cbn; destruct H as [P U];
+    (split; [exact P|exists us'; auto]).
+Qed.
